@@ -1,12 +1,12 @@
 #!/usr/bin/env python3
 """Self-test of the machinery: apply property-breaking edits (that keep the 69 tests green) and equivalent edits
-to /repo's working tree, run the owning checks, restore the tree.
+to a scratch copy of /repo under /tmp (VERIF_REPO), run the owning checks against it, delete the copy.
 
   python3 selftest/mutants.py list
   python3 selftest/mutants.py run [name ...]        (writes selftest/results.json)
 
 Every mutant is (file, old text, new text, checks expected to report VIOLATION); equivalents expect none.
-/repo is restored with `git checkout -- .` after each run, also on failure.
+/repo itself is never modified by the self-test.
 """
 import json
 import os
@@ -15,7 +15,7 @@ import sys
 import time
 
 ROOT = os.path.dirname(os.path.dirname(os.path.abspath(__file__)))
-REPO = "/repo"
+REPO = "/tmp/corgi_selftest"      # scratch copy of /repo (deleted at the end); /repo itself is not touched
 
 M = [
     ("gd_gradient_not_cleared", "src/optimizer/gd.rs",
@@ -65,6 +65,14 @@ def sh(cmd, **kw):
     return subprocess.run(cmd, shell=True, capture_output=True, text=True, **kw)
 
 
+def setup_copy():
+    sh("rm -rf %s %s_harness && mkdir -p %s && git -C /repo archive HEAD | tar -x -C %s" % (REPO, REPO, REPO, REPO))
+
+
+def restore():
+    sh("rm -rf %s/src && git -C /repo archive HEAD src | tar -x -C %s" % (REPO, REPO))
+
+
 def run_one(name, path, old, new, expect, checks):
     src = open(os.path.join(REPO, path)).read()
     assert src.count(old) == 1, "mutant %s: pattern found %d times" % (name, src.count(old))
@@ -81,7 +89,7 @@ def run_one(name, path, old, new, expect, checks):
                                 "reasons": sorted(set(l.split("reason=")[1] for l in p.stderr.splitlines() if "reason=" in l))[:6],
                                 "wall_s": round(time.time() - t0, 1)}
     finally:
-        sh("git -C %s checkout -- ." % REPO)
+        restore()
     return res
 
 
@@ -92,18 +100,23 @@ def main():
         return
     names = sys.argv[2:]
     out = []
+    setup_copy()
     for (name, path, old, new, expect) in M + E:
         if names and name not in names:
             continue
         checks = expect if expect else ALL_CHECKS
         r = run_one(name, path, old, new, expect, checks)
         caught = [c for c, v in r["checks"].items() if v["exit"] == 1]
+        toolerr = [c for c, v in r["checks"].items() if v["exit"] not in (0, 1)]
+        if toolerr:
+            print("   TOOL ERROR in", toolerr, flush=True)
         broken = [c for c, v in r["checks"].items() if v["exit"] not in (0, 1)]
         r["verdict"] = ("caught by " + ",".join(caught)) if caught else "not caught"
         if not expect:
             r["verdict"] = "stays green" if not caught and not broken else "FALSE ALARM in " + ",".join(caught + broken)
         print(name, "|", r["suite"], "|", r["verdict"], "|", {c: v["reasons"] for c, v in r["checks"].items() if v["reasons"]}, flush=True)
         out.append(r)
+    sh("rm -rf %s %s_harness" % (REPO, REPO))
     p = os.path.join(ROOT, "selftest", "results.json")
     prev = json.load(open(p)) if os.path.exists(p) else []
     prev = [x for x in prev if x["name"] not in [o["name"] for o in out]] + out
